@@ -43,7 +43,7 @@ var classes = []classSpec{
 	{`\W`, []string{" ", "-", "é", "\n"}},
 }
 
-var literals = []string{"a", "b", "c", "ab", "abc", "x", "é", "日本", "ß", ".", "+", "(", ")", "*", "[", " ", "\n", "\r\n", "\"", "'", "<", "&", ">", "-", "0", "1", "12", "=", "\\", "K", "k", "s", "#", "/*", "*/", "${", "}", "`", "\x1b[", "\x7f", "\v", "\a", "\U000E0001"}
+var literals = []string{"a", "b", "c", "ab", "abc", "x", "é", "日本", "ß", ".", "+", "(", ")", "*", "[", " ", "\n", "\r\n", "\"", "'", "<", "&", ">", "-", "0", "1", "12", "=", "\\", "K", "k", "s", "ks", "key", "Sk", "#", "/*", "*/", "${", "}", "`", "\x1b[", "\x7f", "\v", "\a", "\U000E0001"}
 
 var anchors = []string{`^`, `$`, `\b`, `\B`, `(?m:^)`, `(?m:$)`, `\A`, `\z`}
 
@@ -198,7 +198,11 @@ func (p *Pat) SampleString(t *rapid.T) string {
 		return p.Kids[0].SampleString(t)
 	case "icase":
 		s := p.Kids[0].SampleString(t)
-		switch rapid.IntRange(0, 3).Draw(t, "fold") {
+		f := rapid.IntRange(0, 3).Draw(t, "fold")
+		if f >= 2 && strings.ContainsAny(s, "ksKS") && rapid.Bool().Draw(t, "foldmore") {
+			f = 1
+		}
+		switch f {
 		case 0:
 			return strings.ToUpper(s)
 		case 1:
@@ -238,7 +242,27 @@ func GenPat(t *rapid.T, depth int, o PatOpts) *Pat {
 	case 12:
 		// corner shapes: an empty alternative, a repetition whose body can match nothing
 		x := GenPat(t, depth-1, o)
-		switch rapid.IntRange(0, 5).Draw(t, "corner") {
+		switch rapid.IntRange(0, 9).Draw(t, "corner") {
+		case 8, 9:
+			// a case-insensitive literal of several characters whose folded forms differ in UTF-8 length
+			// (k / KELVIN SIGN, s / LONG S): byte lengths and character counts disagree
+			lit := &Pat{Kind: "lit", Text: rapid.SampledFrom([]string{"key", "ks", "sk", "ask", "kk", "\u212aey", "skip"}).Draw(t, "foldlit")}
+			ic := &Pat{Kind: "icase", Kids: []*Pat{lit}}
+			if rapid.Bool().Draw(t, "foldalone") {
+				return ic
+			}
+			return &Pat{Kind: "cat", Kids: []*Pat{ic, x}}
+		case 6, 7:
+			// one or more iterations of a body made only of optional parts: X(?:a*b?)+ -- an iteration that
+			// matches nothing still counts as an iteration
+			a, b := genAtom(t, o), genAtom(t, o)
+			first := &Pat{Kind: "rep", Min: 0, Max: -1, Kids: []*Pat{a}}
+			if rapid.Bool().Draw(t, "optfirst") {
+				first.Max = 1
+			}
+			body := &Pat{Kind: "cat", Kids: []*Pat{first, {Kind: "rep", Min: 0, Max: 1, Kids: []*Pat{b}}}}
+			min := rapid.SampledFrom([]int{1, 1, 2}).Draw(t, "plusmin")
+			return &Pat{Kind: "cat", Kids: []*Pat{x, {Kind: "rep", Min: min, Max: -1, Kids: []*Pat{{Kind: "group", Cap: rapid.Bool().Draw(t, "pluscap"), Kids: []*Pat{body}}}}}}
 		case 4, 5:
 			// a tail made only of optional parts, nested in a (capturing) group: X(a?b?)
 			a, b := genAtom(t, o), genAtom(t, o)
